@@ -78,7 +78,12 @@ def build(chk, rng, cenc, denc, extras=(), order=None, ctl_files=None, data_file
     ms = [member(b"debian-binary", binary), member(b"control.tar" + cenc.encode(), compress(chk, cenc, make_tar(cfiles))),
           member(b"data.tar" + denc.encode(), compress(chk, denc, make_tar(dfiles)))]
     for n, d in extras:
-        ms.append(member(n, d))
+        if n.startswith(b"_"):
+            # deb(5): members that older readers may safely ignore have names starting with '_' and may stand anywhere
+            # after debian-binary - before control.tar, between control.tar and data.tar, or at the end
+            ms.insert(rng.randrange(1, len(ms) + 1), member(n, d))
+        else:
+            ms.append(member(n, d))
     if order:
         ms = [ms[i] for i in order]
     return argen.render(ms), {"control": cfields, "ctext": ctext, "cext": b"tar" + cenc.encode(), "dext": b"tar" + denc.encode(),
